@@ -28,12 +28,12 @@ ASSUME = ["optimality of scipy curve_fit / SLSQP is not decided", "whether a pre
 def run(prog, rep):
     rep.explanation = EXPL
     rep.assumptions = ASSUME
-    bounds(prog, rep)
-    constrained(prog, rep)
-    start_result(prog, rep)
-    protocol(prog, rep)
+    rep.part(bounds, prog, rep)
+    rep.part(constrained, prog, rep)
+    rep.part(start_result, prog, rep)
+    rep.part(protocol, prog, rep)
     sub = _R(rep)
-    c09.intervals(prog, sub)
+    rep.part(c09.intervals, prog, sub)
     rep.expect_min("C14.bounds", 8)
     rep.expect_min("C14.constraints", 1)
     rep.expect_min("C14.start", 4)
